@@ -21,7 +21,7 @@ A case:
    sched:{kind:'random'|'pct', seed, ..} | {kind:'replay', choices:[tid..]}}
   op  = {op:'acquire_all',p,ws,n} | {op:'release_all',p,ws} | {op:'next_idle',p,ws,acq} | {op:'release',p,w}
       | {op:'idle',p} | {op:'call',p,w}
-  eop = {op:'die',w} | {op:'revive',w} | {op:'send',w,alive} | {op:'deliver',k,fail} | {op:'tick',d}
+  eop = {op:'die',w} | {op:'revive',w} | {op:'send',w,alive} | {op:'deliver',k,fail} | {op:'tick',d} | {op:'shutdown',w}
 """
 import logging
 import random
@@ -75,7 +75,167 @@ def _wp_set(self, v):
 
 POOL_OPS = ('acquire_all', 'release_all', 'next_idle', 'release', 'idle', 'call')
 COMPOSITE_OPS = ('run', 'call_and_wait')
-ENV_OPS = ('die', 'revive', 'send', 'deliver', 'tick')
+
+
+# ------------------------------------------------------------------ round 6: composite operations step by step (fam 'schedc')
+# `WorkerPool.run` / `call_and_wait` under the scheduler over the MANUAL transport.  Their own yield points:
+#   'clock'  every `time.time()` of courier_worker.py (the clock is shared with the environment's `tick`),
+#   'sleep'  every `time.sleep(..)` of courier_worker.py and courier_utils.py (a pure yield: the virtual clock moves only by `tick`),
+#   'fwait'  `futures.wait([state])` in CourierClient.submit (blocked until the call has been answered),
+#   'wdone'  each `task.done()` poll of the busy loop of `courier_worker.wait` (blocked until that call is done: the
+#            loop reads nothing else and has no timeout, so blocking is its stutter-free equivalent).
+# All of it is installed from here for the duration of one run (no edit of harness/sched/shim.py or harness/fakecourier).
+
+class YClock:
+  """Stand-in for the `time` module of one repo module."""
+
+  def __init__(self, base, yield_time):
+    self._base, self._yield_time = base, yield_time
+
+  def time(self):
+    s = _CUR.get('sched')
+    if self._yield_time and s is not None and s.current() is not None:
+      return s.op('clock', lambda: True, lambda alt: self._base.time())
+    return self._base.time()
+
+  def sleep(self, dt=0.0):
+    s = _CUR.get('sched')
+    if s is not None and s.current() is not None:
+      s.op('sleep', lambda: True, lambda alt: None)
+
+  def monotonic(self):
+    return self._base.time()
+
+  def __getattr__(self, name):
+    return getattr(self._base, name)
+
+
+def futures_facade():
+  import concurrent.futures as cf
+  m = _types.SimpleNamespace(**{k: getattr(cf, k) for k in dir(cf) if not k.startswith('__')})
+
+  def wait(fs, timeout=None, return_when=cf.ALL_COMPLETED):
+    fs = list(fs)
+    s = _CUR.get('sched')
+    if s is not None and s.current() is not None:
+      s.op('fwait', lambda: all(cf.Future.done(f) for f in fs), lambda alt: None)
+    return cf.wait(fs, timeout=timeout, return_when=return_when)
+  m.wait = wait
+  return m
+
+
+def make_yfuture(wait_code):
+  import concurrent.futures as cf
+  import sys as _sys
+
+  class YFuture(cf.Future):
+    def done(self):
+      s = _CUR.get('sched')
+      if s is not None and s.current() is not None and _sys._getframe(1).f_code is wait_code:  # pylint: disable=protected-access
+        return s.op('wdone', lambda: cf.Future.done(self), lambda alt: True)
+      return cf.Future.done(self)
+  return YFuture
+
+
+COMPOSITE_LIKE = COMPOSITE_OPS + ('as_completed',)     # operations that may acquire and release any worker of their pool
+
+
+def install_as_completed_probes(courier_worker, courier_utils, orchestrate, pools, workers, alog, kinds):
+  """Family 'scheda' (round 6): orchestrate.as_completed under the scheduler as an OBSERVED SCRIPT of primitive operations.
+  Every pool-level call made by the body of as_completed itself (`pool.workers`, `next_idle_worker`, `release_all`,
+  `acquired_workers`, `task.is_alive`, `worker.submit`) is logged with its arguments (set iteration orders, shuffles and
+  samples included) and preceded by a marker yield 'pstart' — the 'start' step of a primitive operation of the LTS; the
+  callee runs unchanged.  Only calls whose caller frame is as_completed are touched.  Returns the undo function."""
+  import sys as _sys
+  code = orchestrate.as_completed.__code__
+  pidx = {id(p): i for i, p in enumerate(pools)}
+  widx = {id(w): i for i, w in enumerate(workers)}
+  WP, CC, Task = courier_worker.WorkerPool, courier_utils.CourierClient, courier_utils.Task
+  saved = dict(workers=WP.__dict__['workers'], acquired=WP.__dict__['acquired_workers'], next_idle=WP.next_idle_worker,
+               release_all=WP.release_all, is_alive=Task.__dict__['is_alive'], submit=CC.submit)
+  cur_pool = {}
+
+  def probe(entry):
+    s = _CUR.get('sched')
+    t = s.current() if s is not None else None
+    if t is None:
+      return
+    first = not alog.get(t.tid)
+    alog.setdefault(t.tid, []).append(entry)
+    if not first:          # (the first operation of the body begins with the thread's own 'start' step)
+      s.step('pstart')
+
+  def from_ac():
+    return _CUR.get('sched') is not None and _sys._getframe(2).f_code is code  # pylint: disable=protected-access
+
+  def g_workers(self):
+    if from_ac():
+      t = _CUR['sched'].current()
+      if t is not None:
+        cur_pool[t.tid] = pidx[id(self)]
+      probe(dict(op='alive_workers', p=pidx[id(self)]))
+    return saved['workers'].fget(self)
+
+  def g_acquired(self):
+    if from_ac():
+      probe(dict(op='acquired_workers', p=pidx[id(self)]))
+    return saved['acquired'].fget(self)
+
+  def m_next_idle(self, workers=None, *, maybe_acquire=False):
+    if from_ac():
+      workers = list(self._workers if workers is None else workers)   # pylint: disable=protected-access
+      probe(dict(op='next_idle', p=pidx[id(self)], ws=[widx[id(w)] for w in workers], acq=bool(maybe_acquire)))
+    return saved['next_idle'](self, workers, maybe_acquire=maybe_acquire)
+
+  def m_release_all(self, workers=()):
+    if from_ac():
+      if isinstance(workers, tuple) and not workers:       # the `finally: worker_pool.release_all()`
+        probe(dict(op='finalize', p=pidx[id(self)]))
+      else:
+        workers = list(workers)                            # (a set: the callee iterates it in this order)
+        probe(dict(op='release_all', p=pidx[id(self)], ws=[widx[id(w)] for w in workers]))
+    return saved['release_all'](self, workers)
+
+  def g_is_alive(self):
+    if from_ac():
+      t = _CUR['sched'].current()
+      probe(dict(op='is_alive', p=cur_pool.get(t.tid if t else -1, 0), w=widx[id(self.worker)]))
+    return saved['is_alive'].fget(self)
+
+  def m_submit(self, task):
+    if from_ac():
+      t = _CUR['sched'].current()
+      lazy = task.args[0] if getattr(task, 'args', None) else None
+      probe(dict(op='submit', p=cur_pool.get(t.tid if t else -1, 0), w=widx[id(self)], task=kinds.get(id(lazy), 'ok')))
+    return saved['submit'](self, task)
+
+  WP.workers = property(g_workers)
+  WP.acquired_workers = property(g_acquired)
+  WP.next_idle_worker = m_next_idle
+  WP.release_all = m_release_all
+  Task.is_alive = property(g_is_alive)
+  CC.submit = m_submit
+
+  def undo():
+    WP.workers, WP.acquired_workers = saved['workers'], saved['acquired']
+    WP.next_idle_worker, WP.release_all = saved['next_idle'], saved['release_all']
+    Task.is_alive, CC.submit = saved['is_alive'], saved['submit']
+  return undo
+
+
+def canon_outcome(res):
+  """Result string of a composite operation -> the model's outcome name."""
+  if res == 'ok':
+    return 'ok'
+  r = str(res)
+  if r.startswith('err:ValueError:Failed to connect'):
+    return 'notStarted'
+  if r.startswith('err:ValueError:No worker is avai'):
+    return 'noWorker'
+  if r.startswith('err:RuntimeError:Failed to connect'):
+    return 'disconnected'
+  return 'raised'
+ENV_OPS = ('die', 'revive', 'send', 'deliver', 'tick', 'shutdown')
 
 
 def make_chooser(spec, hook):
@@ -111,12 +271,22 @@ def run_real(case, max_steps=4000):
   logging.disable(logging.CRITICAL)
   # composite operations (`run`, `call_and_wait`: family 'schedrun', oracle only) need their RPCs answered: the
   # transport then runs every handler inline and the repo's spin loops advance the virtual clock by `spin` seconds
-  composite = any(o['op'] in COMPOSITE_OPS for th in case['threads'] for o in th['ops'])
+  stepwise = case.get('fam') in ('schedc', 'scheda')       # composite operations step by step over the manual transport
+  composite = (not stepwise) and any(o['op'] in COMPOSITE_OPS for th in case['threads'] for o in th['ops'])
   clock = fakecourier.VirtualClock(start=float(case['now']), spin_tick=float(case.get('spin', 60)) if composite else 0.0)
   fakecourier.reset(mode='inline' if composite else 'manual', time_fn=clock.time)
   from ml_metrics._src.chainables import courier_server, courier_worker, lazy_fns
   from ml_metrics._src.utils import courier_utils
+  from harness.fakecourier import _core as fc_core
   fakecourier.patch_time(clock)
+  saved_futures, saved_cf = courier_utils.futures, fc_core.cf
+  if stepwise:
+    import concurrent.futures as cf
+    courier_worker.time = YClock(clock, True)
+    courier_utils.time = YClock(clock, False)
+    courier_utils.futures = futures_facade()
+    fc_core.cf = _types.SimpleNamespace(Future=make_yfuture(courier_worker.wait.__code__),
+                                        ThreadPoolExecutor=cf.ThreadPoolExecutor, InvalidStateError=cf.InvalidStateError)
   n, pw = case['nworkers'], case['pw']
   uid = f"x{id(case) & 0xffffff}_{random.getrandbits(40)}_"
   steps = []          # per executed step: [tid, label, op index of the thread]
@@ -126,6 +296,7 @@ def run_real(case, max_steps=4000):
   opinfo = {}       # what a `deliver` delivered (transport-side fact, recorded by the harness)
   results = {}
   state = {}
+  alog, kinds, undo_probes = {}, {}, None
   saved_threading = courier_utils.threading
   saved_reg = courier_utils._worker_registry  # pylint: disable=protected-access
   had_prop = '_worker_pool' in courier_worker.Worker.__dict__
@@ -154,7 +325,9 @@ def run_real(case, max_steps=4000):
       srv.Bind('heartbeat', lambda *args, _ns=ns, **kw: courier_server.CourierServer._heartbeat(_ns, *args, **kw))  # pylint: disable=protected-access
       srv.Bind('maybe_make', lambda lazy=None, *args, **kw: lazy_fns.pickler.dumps(lazy_fns.maybe_make(lazy)))
       srv.Start()
-    workers = [courier_worker.Worker(a, heartbeat_threshold_secs=case['thr']) for a in addrs]
+    mps = case.get('mp') or [1] * n
+    workers = [courier_worker.Worker(a, heartbeat_threshold_secs=case['thr'], max_parallelism=mps[i])
+               for i, a in enumerate(addrs)]
     for i, w in enumerate(workers):
       w.__dict__['_vname'] = str(i)
       w._lock.name = f'L{i}'  # pylint: disable=protected-access
@@ -176,6 +349,10 @@ def run_real(case, max_steps=4000):
           locked=[bool(w.is_locked()) for w in workers],
           sl=[w._states_lock.owner is not None for w in workers],  # the shim's own lock object (harness side)  pylint: disable=protected-access
           reg=[reg.data.get(a, 'absent') for a in addrs])
+
+    if case.get('fam') == 'scheda':
+      from ml_metrics._src.chainables import orchestrate
+      undo_probes = install_as_completed_probes(courier_worker, courier_utils, orchestrate, pools, workers, alog, kinds)
 
     def safe_get(a):
       if reg._lock.owner is None:  # pylint: disable=protected-access
@@ -202,6 +379,42 @@ def run_real(case, max_steps=4000):
       if op == 'call':
         workers[o['w']].call(1)
         return None
+      if op == 'submit':          # Worker.submit of a non-blocking task on its own (what as_completed calls)
+        task = lazy_fns.trace(len)([1, 2]) if o.get('task', 'ok') == 'ok' else lazy_fns.trace(len)(0.5)
+        try:
+          workers[o['w']].submit(task)
+          return 'ok'
+        except shim._Killed:  # pylint: disable=protected-access
+          raise
+        except Exception as e:  # pylint: disable=broad-except
+          from harness.core import err_kind
+          return f'err:{err_kind(e)}:{str(e)[:18]}'
+      if op == 'as_completed':
+        from ml_metrics._src.chainables import orchestrate
+
+        def gen_tasks():
+          for k in o['tasks']:
+            lazy = lazy_fns.trace(len)([1, 2]) if k == 'ok' else lazy_fns.trace(len)(0.5)
+            kinds[id(lazy)] = k
+            state.setdefault('keep', []).append(lazy)
+            yield lazy
+        if o['take'] == 0:
+          orchestrate.as_completed(pool, gen_tasks()).close()          # never started: runs nothing
+          return 'never-started'
+        gen = orchestrate.as_completed(pool, gen_tasks(), ignore_failures=o['ignore'])
+        try:
+          n = 0
+          for _ in gen:
+            n += 1
+            if o['take'] is not None and n >= o['take']:
+              gen.close()
+              return 'closed'
+          return 'ok'
+        except shim._Killed:  # pylint: disable=protected-access
+          raise
+        except Exception as e:  # pylint: disable=broad-except
+          from harness.core import err_kind
+          return f'err:{err_kind(e)}'
       if op in COMPOSITE_OPS:
         task = lazy_fns.trace(len)([1, 2]) if o['task'] == 'ok' else lazy_fns.trace(len)(0.5)   # TypeError at the worker
         try:
@@ -235,6 +448,8 @@ def run_real(case, max_steps=4000):
         fakecourier.deliver(o['k'], fate=fakecourier.APP_ERROR if o['fail'] else None)
       elif op == 'tick':
         clock.advance(o['d'])
+      elif op == 'shutdown':      # the REAL CourierClient.shutdown of the worker's client object (round 6)
+        workers[o['w']].shutdown()
       else:
         raise ValueError(op)
       return None
@@ -256,8 +471,8 @@ def run_real(case, max_steps=4000):
       outcome = sched.run()
     except shim.SchedulerError as e:
       outcome, err = 'schedule_rejected', str(e)
-    if outcome == 'stopped':
-      outcome = 'cut'
+    if outcome == 'stopped' or (stepwise and outcome == 'max_steps'):
+      outcome = 'cut'        # (stepwise: a spin loop of a composite operation whose exit the environment never enables)
     _CUR['sched'] = None
     final = snapshot()
     snaps.append(final)
@@ -265,7 +480,7 @@ def run_real(case, max_steps=4000):
     return dict(
         outcome=outcome, err=err, excs=excs,
         choices=[t for t, _ in sched.choices],
-        steps=steps, enabled=enabled, snaps=snaps, opinfo=opinfo,
+        steps=steps, enabled=enabled, snaps=snaps, opinfo=opinfo, alog={str(k): v for k, v in alog.items()},
         results=[results.get(t, []) for t in range(len(case['threads']))],
         finished=[state.get(t) == 'finished' for t in range(len(case['threads']))],
         final=dict(locked=final['locked'], owners=final['owners'],
@@ -275,8 +490,11 @@ def run_real(case, max_steps=4000):
         blocked=[list(b) for b in sched.blocked])
   finally:
     _CUR['sched'] = None
+    if undo_probes is not None:
+      undo_probes()
     courier_utils.threading = saved_threading
     courier_utils._worker_registry = saved_reg  # pylint: disable=protected-access
+    courier_utils.futures, fc_core.cf = saved_futures, saved_cf
     if not had_prop:
       try:
         del courier_worker.Worker._worker_pool  # pylint: disable=protected-access
@@ -288,9 +506,25 @@ def run_real(case, max_steps=4000):
 
 # ------------------------------------------------------------------ model side
 
-def model_request(case, choices):
+def model_threads(case, alog=None):
+  """The threads as the model sees them; an `as_completed` operation is replaced by the script of primitive operations
+  its body was observed to perform in the real run (`alog`)."""
+  out = []
+  for t, th in enumerate(case['threads']):
+    ops = []
+    for o in th['ops']:
+      if o['op'] == 'as_completed':
+        # (a generator closed before its first next() runs no line of as_completed: an operation that does nothing)
+        ops += [model_op(x) for x in (alog or {}).get(str(t), [])] or [dict(op='next_idle', p=o['p'], ws=[], acq=False)]
+      else:
+        ops.append(model_op(o))
+    out.append(dict(kind=th['kind'], ops=ops))
+  return out
+
+
+def model_request(case, choices, alog=None):
   return dict(model='owner', mode='xsched', nworkers=case['nworkers'], pw=case['pw'], thr=case['thr'], now=case['now'],
-              reg0=case['reg0'], threads=[dict(kind=t['kind'], ops=[model_op(o) for o in t['ops']]) for t in case['threads']],
+              reg0=case['reg0'], mp=case.get('mp') or [1] * case['nworkers'], threads=model_threads(case, alog),
               sched=list(choices))
 
 
@@ -302,7 +536,7 @@ def model_op(o):
 
 def model_obs(case, r):
   nt = len(case['threads'])
-  return dict(accepted=r['accepted'], steps=[[t, l] for t, l, _ in r['trace']], pps=[pp for _, _, pp in r['trace']],
+  return dict(accepted=r['accepted'], prophecy_ok=r.get('prophecy_ok', True), steps=[[t, l] for t, l, _ in r['trace']], pps=[pp for _, _, pp in r['trace']],
               enabled=r['enabled_trace'], enabled_final=r['enabled'], results=r['results'], finished=r['finished'],
               locked=r['locked'], locked_by=r['locked_by'], available=r['available'], acquired=r['acquired'],
               get=r['get'], reg_trace=r['reg_trace'], reg=r['reg'],
@@ -326,7 +560,15 @@ def compare(obs, m):
   if not m['accepted']:
     k = len(m['steps'])
     return (f"model rejects choice #{k} (real step {obs['steps'][k] if k < len(obs['steps']) else None}) taken by the real code")
-  real = [[t, l] for t, l, _ in obs['steps']]
+  for t, th in enumerate(case['threads']):      # scheda: the observed script has the shape the theorems assume (body ++ [finaliser])
+    for j, o in enumerate(th['ops']):
+      if o['op'] == 'as_completed' and j < len(obs['results'][t]) and obs['results'][t][j] != 'never-started':
+        log = obs.get('alog', {}).get(str(t), [])
+        if not log or log[-1]['op'] != 'finalize':
+          return f'thread {t}: as_completed ended ({obs["results"][t][j]}) and the last pool operation of its body is not the finaliser release_all(): {log[-1:]}'
+  if not m['prophecy_ok']:
+    return 'driver: the schedule replayed on the pure xstep? against the discovered script of pieces differs from the first pass'
+  real = [[t, ('start' if l == 'pstart' else l)] for t, l, _ in obs['steps']]
   if real != m['steps']:
     for k, (a, b) in enumerate(zip(real, m['steps'])):
       if a != b:
@@ -342,9 +584,9 @@ def compare(obs, m):
   if obs['outcome'] in ('done', 'deadlock', 'cut'):
     # results of the operations finished so far (model: values of Owner operations only)
     for t, th in enumerate(case['threads']):
-      if th['kind'] != 'pool':
+      if th['kind'] != 'pool' or any(o['op'] == 'as_completed' for o in th['ops']):
         continue
-      want = [v for o, v in zip(th['ops'], obs['results'][t])]
+      want = [(canon_outcome(v) if o['op'] in COMPOSITE_OPS + ('submit',) else v) for o, v in zip(th['ops'], obs['results'][t])]
       got = m['results'][t]
       got = [None if o['op'] in ('release_all', 'release', 'call') else g for o, g in zip(th['ops'], got)]
       if want != got:
